@@ -742,6 +742,11 @@ def run(ctx):
     from .shared import file_digest_covers_stream
 
     file_digest_covers_stream(ctx, 'C01.R2')
+    from .shared import leftover_from_finished_loop
+
+    _rs = ctx.corpus.func('repository', 'Repository.restore')
+    _sn = ctx.corpus.func('repository', 'Repository.snapshot')
+    leftover_from_finished_loop(ctx, 'C01.R3', [_rs, _sn] + list(_rs.all_nested()) + list(_sn.all_nested()), 'restore / snapshot planning')
     r11_serialization(ctx)
     r1b_traversal_complete(ctx)
     r3b_chunk_record_fresh(ctx)
